@@ -131,7 +131,16 @@ class LeakyReluPlugin(PrimitiveLeafPlugin):
         ) -> Callable[..., ArrayLike]:
             if orig is None:
                 raise RuntimeError("Original jax.nn.leaky_relu not found")
-            return lambda *args, **kwargs: cls._PRIM.bind(*args, **kwargs)
+
+            def _bind(x: ArrayLike, *args: object, **kwargs: object) -> ArrayLike:
+                # jax.nn.leaky_relu(x, negative_slope): the parameter may be given positionally
+                if args:
+                    if len(args) > 1 or "negative_slope" in kwargs:
+                        raise TypeError("leaky_relu() got too many or duplicate arguments")
+                    kwargs = dict(kwargs, negative_slope=args[0])
+                return cls._PRIM.bind(x, **kwargs)
+
+            return _bind
 
         return [
             AssignSpec("jax.nn", "leaky_relu_p", cls._PRIM, delete_if_missing=True),
